@@ -134,6 +134,8 @@ def gen_cases(tier):
     for c in list(cases):
         if c.get("kind") in ("angle", "sized") and "ctx" not in c and c["pos"] >= 1 and c["opt"] in (0, 1) and c.get("sp", "none") in ("none", "comma"):
             cases.append(dict(c, nbchk=True))
+            if c["opt"] == 0:
+                cases.append(dict(c, nbgen=True))  # ... or is a parenthesis-less identity column
     # two parameterised types side by side
     for i in range(len(PAIR)):
         for j in range(len(PAIR)):
@@ -167,6 +169,8 @@ def build(case):
     cols[case["pos"]] = "c%d %s%s" % (case["pos"], tt, OPTS[case["opt"]])
     if case.get("nbchk"):
         cols[0] = "c0 int CHECK (c0 > 0 AND c0 < 9)"
+    if case.get("nbgen"):
+        cols[0] = "c0 int GENERATED ALWAYS AS IDENTITY"
     return CTX[case.get("ctx", 0)] + "CREATE TABLE t (" + ", ".join(cols) + ");", tt
 
 
